@@ -505,7 +505,7 @@ fn gen_script(rng: &mut Rng, tier: Tier) -> Script {
         k += 1;
         lines.push(format!("jobcheck {k}"));
         if rng.bool() {
-            lines.push("jobs >/dev/null".into());
+            lines.push(format!("jobs >|/work/jl; jobsout /work/jl {k}"));
             k += 1;
             lines.push(format!("jobcheck {k}"));
         }
@@ -529,7 +529,7 @@ fn gen_script(rng: &mut Rng, tier: Tier) -> Script {
             3 => format!("kill -s STOP %{j} 2>/dev/null"),
             4 => format!("kill -s CONT %{j} 2>/dev/null"),
             5 => format!("kill -s TERM %{j} 2>/dev/null"),
-            6 => "jobs >/dev/null".to_string(),
+            6 => "jobs >|/work/jl; jobsout /work/jl op".to_string(),
             7 => "jobs -l >/dev/null; jobs -n >/dev/null".to_string(),
             8 => format!("nap {}", rng.range(1, 6)),
             9 => format!("fg %{j} >/dev/null 2>&1; jobcheck 7{j} fg:$?:{j}"),
@@ -679,7 +679,7 @@ impl Prop for C12 {
         "exploration"
     }
     fn rule(&self) -> String {
-        "Two engines, one invariant checker (non-empty => current job exists; >= 2 jobs => previous exists and differs; any suspended => current suspended; >= 2 suspended => previous suspended; find_by_pid is a bijection onto iter(); an index never changes while its job exists; %%, %+, %-, %n resolve as documented; plus the transition rules documented on JobList::insert/remove/update_status/set_current_job). (a) Seeded event histories (up to 30 events, event mix varied per history) over {insert running/suspended with a fresh pid or the pid of a finished job, status report running/stopped/exited/signaled incl. duplicates, expected reports and reports for unknown pids, set_current_job, remove, remove_if, state_reported, set_last_async_pid, disown_all} applied to the real JobList, checked after every event. (b) Whole-shell scripts under `set -m` on the simulated OS: 1-4 asynchronous jobs that stop themselves, sleep or exit; bg / fg / kill -STOP/-CONT/-TERM %n / jobs / wait, inside loops and functions; the simulator additionally stops, continues and kills children at seeded steps; a jobcheck probe evaluates the invariants on Env::jobs after every command and from the EXIT trap, under seeded schedules with preemption. Distinct non-trivial: (a) distinct table-state trajectories (hash of the state after every event) with >= 2 jobs alive at some point; (b) distinct (script, schedule hash, injected-signal count).".into()
+        "Two engines, one invariant checker (non-empty => current job exists; >= 2 jobs => previous exists and differs; any suspended => current suspended; >= 2 suspended => previous suspended; find_by_pid is a bijection onto iter(); an index never changes while its job exists; %%, %+, %-, %n resolve as documented; plus the transition rules documented on JobList::insert/remove/update_status/set_current_job). (a) Seeded event histories (up to 30 events, event mix varied per history) over {insert running/suspended with a fresh pid or the pid of a finished job, status report running/stopped/exited/signaled incl. duplicates, expected reports and reports for unknown pids, set_current_job, remove, remove_if, state_reported, set_last_async_pid, disown_all} applied to the real JobList, checked after every event. (b) Whole-shell scripts under `set -m` on the simulated OS: 1-4 asynchronous jobs that stop themselves, sleep or exit; bg / fg / kill -STOP/-CONT/-TERM %n / jobs / wait, inside loops and functions; the simulator additionally stops, continues and kills children at seeded steps; a jobcheck probe evaluates the invariants on Env::jobs after every command and from the EXIT trap, under seeded schedules with preemption. Distinct non-trivial: (a) distinct table-state trajectories (hash of the state after every event) with >= 2 jobs alive at some point; (b) distinct (script, schedule hash, injected-signal count). The text the `jobs` built-in prints is checked too (`jobsout` probe): job numbers unique, exactly one line marked `+`, exactly one marked `-` when two or more jobs are listed, and stopped jobs take the marks first.".into()
     }
     fn assumptions(&self) -> Vec<String> {
         vec![
